@@ -42,13 +42,16 @@ class BasePickerModel(ABC):
             depth = (depth, depth, depth)
         # additional overlap requested by the picker (e.g. the exclusion distance)
         depth = tuple(d + type(d)(_extra_depth) for d in depth)
+        # the overlap cannot exceed the image size. The clipped depth is also the one to be
+        # subtracted from the picked coordinates afterwards.
+        depth = tuple(d if d <= s else type(d)(s) for s, d in zip(image.shape, depth))
         task: da.Array = image.map_overlap(
             self._pick_in_chunk_wrapped,
             **params,
             **kwargs,
             # dask parameters
             # NOTE: a tuple means per-axis depths (a list would mean per-array depths).
-            depth=tuple(int(min(s, d)) for s, d in zip(image.shape, depth)),
+            depth=tuple(int(d) for d in depth),
             trim=False,
             boundary=boundary,
             dtype=object,
